@@ -54,8 +54,26 @@ func concWriters(k, m int, write func(context.Context, *Rpc) error, read func(co
 		defer close(readerDone)
 		next := make([]int, k)
 		seen := map[uint64]bool{}
+		// aliasing: an envelope a Read has returned belongs to the caller and must not CHANGE afterwards (a consumer may
+		// still hold it, queued, while the next frames are read): the last 8 returned pointers are kept together with a
+		// deep copy taken at Read time and compared after every further Read
+		type held struct{ p, copy *Rpc }
+		var ring []held
 		for {
 			x, err := read(context.Background())
+			for _, h := range ring {
+				if !proto.Equal(h.p, h.copy) {
+					note("an envelope returned by an earlier Read (id %d) changed after a later Read: it is now id %d", h.copy.GetId(), h.p.GetId())
+					ring = nil
+					break
+				}
+			}
+			if err == nil && x != nil {
+				ring = append(ring, held{x, proto.Clone(x).(*Rpc)})
+				if len(ring) > 8 {
+					ring = ring[1:]
+				}
+			}
 			if err != nil {
 				note("Read failed after %d envelopes: %v", res.Read, err)
 				if res.Read > k*m+64 {
